@@ -28,6 +28,9 @@ pub struct Case {
 	/// false: `MaxDustHTLCExposure::FixedLimitMsat(limit_msat)`; true: `FeeRateMultiplier(limit_msat / 253)` – the
 	/// limit then follows B's *own* fee estimate (253 sat/kW unless B itself raises it), never what a peer proposes
 	pub multiplier: bool,
+	/// stop after this many payments (40: until B refuses; small: B is left with a few HTLCs, so that a later
+	/// feerate change puts it just above its limit rather than far above it)
+	pub max_payments: u32,
 }
 
 const DUST_LIMIT_SAT: u64 = 354;
@@ -119,7 +122,7 @@ pub fn run_case(c: &Case) -> Result<Outcome, (String, String)> {
 	let mut refused_in_a_row = 0u32;
 	let mut forwarded = 0u32;
 	let mut dir = 0u8;
-	while sent < 40 && refused_in_a_row < 3 {
+	while sent < c.max_payments && refused_in_a_row < 3 {
 		let before_ab = w.chan(1, &ab).map(|c| c.pending_inbound_htlcs.len() + c.pending_outbound_htlcs.len()).unwrap_or(0);
 		let before_bc = w.chan(1, &bc).map(|c| c.pending_inbound_htlcs.len() + c.pending_outbound_htlcs.len()).unwrap_or(0);
 		let pi = if dir == 0 { w.send_payment(0, &[(1, ab), (2, bc)], c.amount_msat, ClaimPolicy::Hold) } else { w.send_payment(2, &[(1, bc), (0, ab)], c.amount_msat, ClaimPolicy::Hold) };
@@ -147,7 +150,7 @@ pub fn run_case(c: &Case) -> Result<Outcome, (String, String)> {
 			dir ^= 1;
 		}
 	}
-	let refused_for_dust = refused_in_a_row >= 3 && sent < 40;
+	let refused_for_dust = refused_in_a_row >= 3 && sent < c.max_payments;
 	// fee bump
 	if c.fee_bump != 0 {
 		let n = if c.fee_bump == 1 { 1 } else { 0 };
@@ -178,11 +181,19 @@ pub fn cases(thorough: bool) -> Vec<Case> {
 						continue;
 					}
 					for both_ways in [false, true] {
-						v.push(Case { ct, limit_msat, amount_msat, fee_bump, both_ways, multiplier: false });
+						v.push(Case { ct, limit_msat, amount_msat, fee_bump, both_ways, multiplier: false, max_payments: 40 });
 						// the default policy (limit = multiplier x own fee estimate): pre-anchor channels, where a feerate
 						// change moves the dust threshold
 						if ct == Ct::Static && (thorough || (limit_msat == 1_000_000 && amount_msat >= 450_000)) {
-							v.push(Case { ct, limit_msat, amount_msat, fee_bump, both_ways, multiplier: true });
+							v.push(Case { ct, limit_msat, amount_msat, fee_bump, both_ways, multiplier: true, max_payments: 40 });
+							if fee_bump != 0 {
+								for max_payments in if thorough { vec![2u32, 3, 4, 6, 10] } else { vec![3u32, 6] } {
+									v.push(Case { ct, limit_msat, amount_msat, fee_bump, both_ways, multiplier: true, max_payments });
+									if thorough {
+										v.push(Case { ct, limit_msat, amount_msat, fee_bump, both_ways, multiplier: false, max_payments });
+									}
+								}
+							}
 						}
 					}
 				}
